@@ -285,7 +285,8 @@ func ancestorsIdentical(final *simrt.Inode, before map[string]map[string]any, ex
 				if child == nil {
 					continue
 				}
-				if old, ok := before[Abs(k)]; ok {
+				if old, ok := before[Abs(k)]; ok && !taggedRecord(ex, Abs(k)) {
+					// (records of files that a tagging component re-writes during the resume are exempt)
 					if !jsonEqual(old, child) {
 						ob, _ := json.Marshal(old)
 						cb, _ := json.Marshal(child)
@@ -305,6 +306,24 @@ func ancestorsIdentical(final *simrt.Inode, before map[string]map[string]any, ex
 	return "", ""
 }
 
+// taggedRecord: is the record of the file at abs one that a tagging component
+// mutates (the file itself or a sibling output of the same task is tagged)?
+func taggedRecord(ex *Expect, abs string) bool {
+	if len(ex.Attached[abs]) > 0 {
+		return true
+	}
+	lin := ex.Lins[abs]
+	if lin == nil {
+		return false
+	}
+	for p := range ex.Attached {
+		if ex.Lins[p] == lin {
+			return true
+		}
+	}
+	return false
+}
+
 func clip2(b []byte) string {
 	if len(b) > 400 {
 		return string(b[:400]) + "..."
@@ -322,9 +341,15 @@ func init() {
 	Register(&Check{ID: "C11", Level: "fault_enumeration",
 		Rule: "one case = one generated workflow and one of three ways, tape-chosen, of splitting its execution over several incarnations on one persistent fs: (a) RunTo(tape-chosen prefix targets) then Run; (b) for the sampled schedule EVERY distinct crash state: kill there, cleanup, re-run (states in which the re-run does not complete are C03's business and skipped here); (c) complete run, delete a tape-chosen set of outputs with their audit files, re-run. Oracle after each history: every output's audit file equals the reference lineage (= the uninterrupted result: process, command, parameters, tags, output paths of every ancestor, recursively), and every nested ancestor record whose audit file was on disk before the resuming incarnation is identical (ids, time stamps and all) to that file - which exercises scipipe's own write -> read -> embed -> write path. distinct = event-log hash of the history; non-trivial = >=2 tasks, >=1 non-default choice",
 		Run: func(c *Case) Verdict {
-			w := Generate(c.Tape, crashTierProfile(profC11, c.Tier))
-			ex := Eval(w)
 			mode := c.Tape.Choose(simrt.StGen, 3, 0)
+			prof := profC11
+			if mode == 1 {
+				// crash histories also with tagging components: they re-write the audit
+				// file of an EXISTING output, so a kill can land inside that re-write
+				prof.Taggers = true
+			}
+			w := Generate(c.Tape, crashTierProfile(prof, c.Tier))
+			ex := Eval(w)
 			check := func(final *simrt.Inode, before map[string]map[string]any, incs ...*Inc) Verdict {
 				if v := auditOracle(final, ex, instsByKey(incs...)); v.Status != "ok" {
 					return v
